@@ -1,11 +1,12 @@
 (* C02 - stages run in order; every cleanup runs exactly once, LIFO, whatever failed; nothing is
    left; patched attributes are restored; a second run repeats the first.
-   Only statements; every proof is `exact <lemma of Proof/C02.v or Proof/RunCore.v>`. *)
+   Only statements; every proof is `exact <lemma of Proof/C02.v, Proof/RunCore.v or Proof/RunExtra.v>`. *)
 From Coq Require Import Permutation.
-From TT Require Import Lib.Base Gen.Handlers Model.Run Spec.Run Spec.C02 Corr.C02 Proof.RunCore Proof.C02.
+From TT Require Import Lib.Base Gen.Handlers Model.Run Spec.Run Spec.C02 Corr.C02 Proof.RunCore Proof.RunExtra Proof.C02.
 
-(* The model meets the whole statement for every finite program, every initial attribute
-   dictionary, on both runs of the instance. *)
+(* The model meets the whole statement for every finite program (any number of statements per
+   body, cleanups registering cleanups to any depth, any exception values, fixtures, patches),
+   every initial attribute dictionary, on both runs of the instance. *)
 Theorem C02_holds : forall i : input, wf i = true -> spec_okb i (model i) = true.
 Proof. exact model_meets_spec. Qed.
 Print Assumptions C02_holds.
@@ -18,42 +19,60 @@ Theorem C02_obs_eqb : forall a b, obs_eqb a b = true <-> a = b.
 Proof. exact obs_eqb_spec. Qed.
 Print Assumptions C02_obs_eqb.
 
-(* C02_order, C02_stack_empty, C02_patch_restored - for a run() of the instance in ANY state s0
-   (fresh or used): the log is setUp, then test and tearDown iff setUp returned, then the
-   cleanup phase [cleanup_entries] (Spec/Run.v: DESIGN Appendix A.1); no cleanup is left (the
-   fuel supplied suffices); vars(scratch) is what it was before *)
+(* C02_order - for a run() of the instance in ANY state s0 (fresh or used): the log is setUp,
+   then test and tearDown iff setUp returned, then the cleanup phase [cleanup_entries]
+   (Spec/Run.v: DESIGN Appendix A.1); no cleanup is left (the fuel supplied suffices);
+   vars(scratch) is what it was before *)
 Theorem C02_order : forall p s0,
   exists r s, observe p s0 = (r, s) /\ r_left r = 0 /\ r_attrs r = attrs s0
               /\ map shape (r_log r) = expected_log p.
 Proof. exact run_restores. Qed.
 Print Assumptions C02_order.
 
-(* C02_once: the functions the cleanup phase calls are, counted with multiplicity, exactly the
-   functions that executed addCleanup statements registered - whatever any body raised *)
-Theorem C02_once : forall p, Permutation (user_entries (cleanup_entries p)) (registered p).
+(* C02_once: what the cleanup phase calls is, counted with multiplicity, exactly what the
+   executed statements registered - functions, patch undo actions, fixture cleanUps and detail
+   gatherings - whatever any body raised *)
+Theorem C02_once : forall p, Permutation (cleanup_entries p) (registered p).
 Proof. exact once. Qed.
 Print Assumptions C02_once.
 
 (* C02_lifo: the precise reading of "reverse registration order" under dynamic registration.
    (1) later registrations of one body run first, and nothing after a raising statement is
    registered; (2) what a cleanup registers while it runs comes right after it, before every
-   cleanup still pending; (3) the literal pop-run-repeat machine realises exactly this order
-   on any stack, given fuel for the size of the stack. *)
+   cleanup still pending; (3) of two registrations in one body the later runs first, each followed
+   at once by its own registrations; (4) the literal pop-run-repeat machine realises exactly this
+   order on any stack, given fuel for the size of the stack: log, exceptions caught, nothing left,
+   and the patched attributes are what the pending undo actions make of them. *)
 Theorem C02_lifo :
   (forall l1 l2, acts_raise l1 = None -> pending (l1 ++ l2) = pending l2 ++ pending l1)
   /\ (forall l1 x l2 e, acts_raise l1 = None -> act_raise x = Some e -> pending (l1 ++ x :: l2) = pending l1)
   /\ (forall t b, act_entries (ACleanup t b) = EUser t b :: pending b)
+  /\ (forall l1 a1 l2 a2 l3, acts_raise (l1 ++ a1 :: l2 ++ [a2]) = None ->
+        pending (l1 ++ a1 :: l2 ++ a2 :: l3) = pending l3 ++ act_entries a2 ++ pending l2 ++ act_entries a1 ++ pending l1)
   /\ (forall fuel s, stack_size (stack s) <= fuel ->
         exists s' failing, run_cleanups fuel s = (s', failing, false)
-          /\ ran s s' (entries_log (entries_of (stack s))) (entries_excs (entries_of (stack s)))
-                      (entries_force (entries_of (stack s)))
-          /\ failing = negb (match entries_excs (entries_of (stack s)) with [] => true | _ => false end)
+          /\ map shape (log s') = map shape (log s) ++ flat_map entry_log (entries_of (stack s))
+          /\ excs s' = excs s ++ flat_map (fun e => caught (entry_raise e)) (entries_of (stack s))
           /\ stack s' = [] /\ attrs s' = undo_all (stack s) (attrs s)).
-Proof. exact (conj pending_app (conj pending_stop (conj act_entries_cleanup run_cleanups_spec))). Qed.
+Proof.
+  exact (conj pending_app (conj pending_stop (conj act_entries_cleanup (conj lifo_pair cleanups_lifo)))).
+Qed.
 Print Assumptions C02_lifo.
 
+(* C02_stack_empty: after run() on an instance in any state, _cleanups is empty *)
+Theorem C02_stack_empty : forall p s0, stack (snd (observe p s0)) = [] /\ r_left (fst (observe p s0)) = 0.
+Proof. exact stack_empty. Qed.
+Print Assumptions C02_stack_empty.
+
+(* C02_patch_restored: every attribute of the patched object has its value from before the run,
+   or is absent again (attributes are changed only through patch()) *)
+Theorem C02_patch_restored : forall p s0 k, aget k (r_attrs (fst (observe p s0))) = aget k (attrs s0).
+Proof. exact patch_restored. Qed.
+Print Assumptions C02_patch_restored.
+
 (* C02_rerun: the second run() of the same instance repeats the sequence and the outcome
-   (force_failure is not reset by _reset, but what set it in the first run sets it again) *)
+   (force_failure and inserted exception handlers are not reset by _reset, but what set them in
+   the first run sets them again) *)
 Theorem C02_rerun : forall i,
   let o := model i in
   map shape (r_log (o_second o)) = map shape (r_log (o_first o))
@@ -72,9 +91,12 @@ Example C02_example :
               p_up_setup := true;
               p_body := (2, [ACleanup 12 []; ARaise (Exc CKbd None); ACleanup 13 []]);
               p_teardown := (3, [APatch 0 8]); p_up_teardown := true; p_handlers := [] |} in
-  r_log (o_first (model {| i_prog := p; i_attrs := [(0, 1)] |}))
+  wf {| i_prog := p; i_attrs := [(0, 1)] |} = true
+  /\ r_log (o_first (model {| i_prog := p; i_attrs := [(0, 1)] |}))
   = [LTok 1; LSet 0 5; LTok 20; LTok 2; LTok 3; LSet 0 8; LSet 0 5; LTok 12; LTok 22; LTok 21; LTok 10; LSet 0 6;
      LTok 11; LSet 1 7; LDel 1; LSet 0 5; LSet 0 1]
   /\ r_attrs (o_second (model {| i_prog := p; i_attrs := [(0, 1)] |})) = [(0, 1)]
-  /\ registered p = [(10, [APatch 0 6; ACleanup 11 [APatch 1 7]]); (11, [APatch 1 7]); (12, [])].
+  /\ r_outs (o_first (model {| i_prog := p; i_attrs := [(0, 1)] |})) = [OErr]
+  /\ registered p = [ERestore 0; EUser 10 [APatch 0 6; ACleanup 11 [APatch 1 7]]; ERestore 0; EUser 11 [APatch 1 7];
+                     ERestore 1; EFx fx; EGather fx; EUser 12 []; ERestore 0].
 Proof. vm_compute. repeat split. Qed.
